@@ -145,12 +145,39 @@ FUNCS = {
     "method-dot": (2, lambda A, B: A.dot(B), "ab"),
     "method-prod": (1, lambda A, B: A.prod(), "a^n"),
     "method-var": (1, lambda A, B: A.var(), "a2"),
+    "mod": (2, lambda A, B: np.mod(A, B), "a"),
+    "remainder": (2, lambda A, B: np.remainder(A, B), "a"),
+    "fmod-operator": (2, lambda A, B: A % B, "a"),
+    "floor_divide": (2, lambda A, B: np.floor_divide(A, B), "a/b"),
+    "floordiv-operator": (2, lambda A, B: A // B, "a/b"),
+    "clip-max-only": (2, lambda A, B: np.clip(A, None, B[0]), "a"),
+    "clip-min-only": (2, lambda A, B: np.clip(A, B[0], None), "a"),
+    "clip-keywords": (2, lambda A, B: np.clip(A, a_max=B[0], a_min=None), "a"),
+    "method-clip-max-only": (2, lambda A, B: A.clip(None, B[0]), "a"),
+    "method-clip-min-keyword": (2, lambda A, B: A.clip(min=B[0]), "a"),
+    "insert": (2, lambda A, B: np.insert(A, 1, B[0]), "a"),
+    "resize": (1, lambda A, B: np.resize(A, 4), "a"),
+    "copy": (1, lambda A, B: np.copy(A), "a"),
+    "squeeze": (1, lambda A, B: np.squeeze(A), "a"),
+    "expand_dims": (1, lambda A, B: np.expand_dims(A, 0), "a"),
+    "atleast_2d": (1, lambda A, B: np.atleast_2d(A), "a"),
+    "broadcast_to": (1, lambda A, B: np.broadcast_to(A, (2, 3)), "a"),
+    "moveaxis": (1, lambda A, B: np.moveaxis(np.atleast_2d(A), 0, 1), "a"),
+    "compress": (1, lambda A, B: np.compress([True, False, True], A), "a"),
+    "method-take": (1, lambda A, B: A.take([2, 0]), "a"),
+    "method-ptp-free": (1, lambda A, B: A.max() - A.min(), "a"),
+    "method-argsort": (1, lambda A, B: A.argsort(), "bare"),
+    "method-searchsorted": (2, lambda A, B: np.sort(A).searchsorted(B[0]), "bare"),
+    "method-tolist": (1, lambda A, B: A.tolist()[1], "a"),
     "getitem": (1, lambda A, B: A[1], "a"),
     "iter": (1, lambda A, B: list(A)[2], "a"),
 }
 del FUNCS["cumprod-dimensionless"]
 
-SAME_DIM_REQUIRED = {"add", "subtract", "maximum", "minimum", "equal", "not_equal", "less", "less_equal", "greater", "greater_equal", "sum-initial", "clip", "method-clip", "where", "concatenate", "hstack", "vstack", "stack", "append", "isin", "searchsorted", "pad", "linspace"}
+SAME_DIM_REQUIRED = {"mod", "remainder", "fmod-operator", "floor_divide", "floordiv-operator", "clip-max-only", "clip-min-only", "clip-keywords", "method-clip-max-only", "method-clip-min-keyword", "insert", "method-searchsorted", "add", "subtract", "maximum", "minimum", "equal", "not_equal", "less", "less_equal", "greater", "greater_equal", "sum-initial", "clip", "method-clip", "where", "concatenate", "hstack", "vstack", "stack", "append", "isin", "searchsorted", "pad", "linspace"}
+
+
+DIVISORS_NONZERO = {"mod", "remainder", "fmod-operator", "floor_divide", "floordiv-operator"}
 
 
 def _expected_unit(ureg, rule, ua, ub, n):
@@ -158,13 +185,44 @@ def _expected_unit(ureg, rule, ua, ub, n):
     return {"a": A, "b": B, "ab": A * B, "a/b": A / B, "a2": A**2, "sqrt": A**0.5, "a^n": A**n, "bare": None}[rule]
 
 
+# known findings K10 / K11: these NumPy routes ignore the unit of their second operand (pint's own
+# test-suite pins that behaviour).  A concrete witness decides whether the defect is present; if
+# it is, it is reported under its own label and the symbolic clauses -- which presuppose a
+# function of the physical values -- are not attempted for that function.
+K10 = {"mod": (np.mod, lambda a, b: a % b), "remainder": (np.remainder, lambda a, b: a % b), "floor_divide": (np.floor_divide, lambda a, b: a // b)}
+
+
+def _k10_present(eng, ureg, name, bare=False):
+    npf, op = K10[name]
+    n = eng.num
+    if bare:
+        A = ureg.Quantity(np.array([n(50), n(170), n(250)], dtype=object), "percent")
+        B = np.array([n(1), n(1), n(2)], dtype=object)
+    else:
+        A = ureg.Quantity(np.array([n(5), n(7), n(9)], dtype=object), "meter")
+        B = ureg.Quantity(np.array([n(12), n(24), n(36)], dtype=object), "inch")
+    try:
+        got, want = npf(A, B), op(A, B)
+        same = all(bool(x == y) for x, y in zip(np.asarray(got.to_root_units().magnitude, dtype=object).ravel(), np.asarray(want.to_root_units().magnitude, dtype=object).ravel()))
+    except DimensionalityError:
+        same = False
+    if not same:
+        eng.fail(f"{name}:second-operand-not-converted", stop=False)
+    return not same
+
+
 def h_func(eng, name, ua, ua2, ub, ub2):
     ureg = regs.default(eng)
     arity, f, rule = FUNCS[name]
+    if name in K10 and _k10_present(eng, ureg, name):
+        return
     a, b = _arr(eng, "a"), _arr(eng, "b")
     if name in ("sqrt", "std"):
         for x in a:
             eng.assume(x >= 0)
+    if name in DIVISORS_NONZERO:
+        for x in b:
+            eng.assume(Not(Eq(x, 0)))
     A, B = ureg.Quantity(a.copy(), ua), ureg.Quantity(b.copy(), ub)
     A2, B2 = A.to(ua2), B.to(ub2)
     keepA, keepB = list(A.magnitude), list(B.magnitude)
@@ -188,10 +246,147 @@ def h_func(eng, name, ua, ua2, ub, ub2):
     eng.prove(str(A.units) == ua and str(B.units) == ub, f"{name}:input-units-unchanged")
 
 
+# functions of a quantity in a *scaled dimensionless* unit and bare numbers: the bare numbers are
+# dimensionless quantities (C03), so the answer is the same whether the array is written in
+# percent, in ppm or as plain numbers
+DIMLESS_FUNCS = {
+    "add-bare": (lambda A, b: np.add(A, b), "q"),
+    "subtract-bare": (lambda A, b: np.subtract(A, b), "q"),
+    "radd-bare": (lambda A, b: np.add(b, A), "q"),
+    "maximum-bare": (lambda A, b: np.maximum(A, b[0]), "q"),
+    "less-bare": (lambda A, b: np.less(A, b), "bare"),
+    "equal-bare": (lambda A, b: np.equal(A, b), "bare"),
+    "clip-bare": (lambda A, b: np.clip(A, b[0], b[0] + abs(b[1])), "q"),
+    "method-clip-bare": (lambda A, b: A.clip(b[0], b[0] + abs(b[1])), "q"),
+    "method-clip-bare-max-only": (lambda A, b: A.clip(None, b[0]), "q"),
+    "where-bare": (lambda A, b: np.where(A > b, A, b), "q"),
+    "isin-bare": (lambda A, b: np.isin(A, b), "bare"),
+    "isin-bare-list": (lambda A, b: np.isin(A, list(b)), "bare"),
+    "cumprod": (lambda A, b: np.cumprod(A), "q"),
+    "method-cumprod": (lambda A, b: A.cumprod(), "q"),
+    "prod": (lambda A, b: np.prod(A), "q"),
+    "mod-bare": (lambda A, b: np.mod(A, b), "q"),
+    "operator-mod-bare": (lambda A, b: A % b, "q"),
+    "floor_divide-bare": (lambda A, b: np.floor_divide(A, b), "q"),
+    "operator-floordiv-bare": (lambda A, b: A // b, "q"),
+    "searchsorted-bare": (lambda A, b: np.searchsorted(np.sort(A), b[0]), "bare"),
+    "method-put-bare": (lambda A, b: (lambda C: (C.put(0, b[0]), C)[1])(A.__class__(A.magnitude.copy(), A.units)), "q"),
+    "method-fill-quantity": (lambda A, b: (lambda C: (C.fill(A._REGISTRY.Quantity(b[0], "")), C)[1])(A.__class__(A.magnitude.copy(), A.units)), "q"),
+    "sum-initial-bare": (lambda A, b: np.sum(A, initial=b[0]), "q"),
+    "full_like-bare": (lambda A, b: np.full_like(A, b[0]), "any"),
+    "append-bare": (lambda A, b: np.append(A, b), "q"),
+    "concatenate-bare": (lambda A, b: np.concatenate([A, b]), "q"),
+    "linspace-bare": (lambda A, b: np.linspace(A[0], b[0], 3), "q"),
+    "insert-bare": (lambda A, b: np.insert(A, 1, b[0]), "q"),
+}
+
+
+def _dimless_value(r):
+    """a result as plain numbers: a quantity in dimensionless units, or bare"""
+    if hasattr(r, "_units"):
+        return np.asarray(r.to("").magnitude, dtype=object).ravel()
+    return np.asarray(r, dtype=object).ravel()
+
+
+def h_dimless(eng, name, ua, ua2):
+    ureg = regs.default(eng)
+    f, kind = DIMLESS_FUNCS[name]
+    if name.replace("-bare", "") in K10 and _k10_present(eng, ureg, name.replace("-bare", ""), bare=True):
+        return
+    if name.startswith("isin-bare"):
+        n = eng.num
+        A = ureg.Quantity(np.array([n(50), n(20)], dtype=object), "percent")
+        if not bool(np.isin(A, [Fraction(1, 2)])[0]):
+            # known finding K11: bare test elements are compared with the raw magnitudes
+            eng.fail("isin:bare-test-elements-compared-with-raw-magnitudes", stop=False)
+            return
+    a, b = _arr(eng, "a"), _arr(eng, "b")
+    if "mod" in name or "floor" in name:
+        for x in b:
+            eng.assume(Not(Eq(x, 0)))
+    A = ureg.Quantity(a.copy(), ua)
+    A2 = A.to(ua2)
+    keep = list(A.magnitude)
+    outcomes = []
+    for arr in (A, A2):
+        try:
+            outcomes.append(("ok", f(arr, b.copy())))
+        except DimensionalityError:
+            outcomes.append(("DimensionalityError", None))
+    eng.prove(outcomes[0][0] == outcomes[1][0], f"{name}:same-kind-of-outcome")
+    if outcomes[0][0] == "ok" and outcomes[1][0] == "ok":
+        r1, r2 = outcomes[0][1], outcomes[1][1]
+        if kind == "bare":
+            eng.prove(not hasattr(r1, "_units") and not hasattr(r2, "_units"), f"{name}:result-is-bare")
+        elif kind == "q":
+            eng.prove(hasattr(r1, "_units") and hasattr(r2, "_units"), f"{name}:result-is-quantity")
+        v1, v2 = _dimless_value(r1), _dimless_value(r2)
+        eng.prove(len(v1) == len(v2), f"{name}:shape")
+        for i, (x, y) in enumerate(zip(v1, v2)):
+            try:
+                eng.prove(Iff(x, y) if kind == "bare" else Eq(x, y), f"{name}:value[{i}]")
+            except TypeError:
+                eng.prove(Eq(x, y), f"{name}:value[{i}]")
+    for i in range(3):
+        eng.prove(Eq(A.magnitude[i], keep[i]), f"{name}:input-unchanged[{i}]")
+
+
+def h_float_routing(eng):
+    """functions that only exist for float arrays: every argument reaches its own parameter,
+    converted to the unit of the argument it is compared with (exactly representable values)"""
+    ureg = regs.float_default()
+    Qy = ureg.Quantity
+    P = eng.prove
+    x = Qy(np.array([0.0, 1.5, 5.0]), "m")
+    xp, fp = Qy(np.array([1.0, 2.0]), "m"), Qy(np.array([10.0, 20.0]), "s")
+    r = np.interp(x, xp, fp, left=Qy(-1.0, "s"), right=Qy(0.5, "min"))
+    P(str(r.units) == "second" and list(r.magnitude) == [-1.0, 15.0, 30.0], "interp:left-right-reach-their-parameters")
+    r = np.interp(Qy(np.array([150.0]), "cm"), xp, fp)
+    P(list(r.magnitude) == [15.0], "interp:x-converted-to-xp-units")
+    y = Qy(np.array([np.nan, np.inf, -np.inf, 2.0]), "m")
+    r = np.nan_to_num(y, nan=Qy(50.0, "cm"), posinf=Qy(1.0, "km"), neginf=Qy(-2.0, "m"))
+    P(list(r.magnitude) == [0.5, 1000.0, -2.0, 2.0] and str(r.units) == "meter", "nan_to_num:all-three")
+    r = np.nan_to_num(y, posinf=Qy(1.0, "km"), neginf=Qy(-300.0, "cm"))
+    P(list(r.magnitude)[1:] == [1000.0, -3.0, 2.0], "nan_to_num:earlier-argument-omitted")
+    r = np.nan_to_num(y, nan=Qy(50.0, "cm"), neginf=Qy(-300.0, "cm"))
+    P(r.magnitude[0] == 0.5 and r.magnitude[2] == -3.0, "nan_to_num:middle-argument-omitted")
+    z = Qy(np.array([1.0, 2.0, 3.0]), "m")
+    P(list(np.clip(z, None, Qy(150.0, "cm")).magnitude) == [1.0, 1.5, 1.5], "clip:min-omitted")
+    P(list(np.clip(z, Qy(150.0, "cm"), None).magnitude) == [1.5, 2.0, 3.0], "clip:max-omitted")
+    P(list(np.clip(z, a_max=Qy(2500.0, "mm"), a_min=Qy(150.0, "cm")).magnitude) == [1.5, 2.0, 2.5], "clip:keywords-out-of-order")
+    P(bool(np.allclose(Qy(np.array([1.0]), "m"), Qy(np.array([100.0]), "cm"))) and not bool(np.allclose(Qy(np.array([1.0]), "m"), Qy(np.array([1.0]), "cm"))), "allclose:converted")
+    P(list(np.isclose(z, Qy(200.0, "cm"))) == [False, True, False], "isclose:converted")
+    r = np.arctan2(Qy(np.array([1.0]), "m"), Qy(np.array([100.0]), "cm"))
+    P(abs(r.to("radian").magnitude[0] - np.pi / 4) < 1e-15, "arctan2:converted")
+    P(list(np.copysign(z, Qy(-5.0, "cm")).magnitude) == [-1.0, -2.0, -3.0], "copysign")
+    P(list(np.hypot(Qy(np.array([3.0]), "m"), Qy(np.array([400.0]), "cm")).to("m").magnitude) == [5.0], "hypot:converted")
+    if list(np.fmod(Qy(np.array([5.0, 7.0]), "m"), Qy(np.array([200.0, 300.0]), "cm")).to("m").magnitude) != [1.0, 1.0]:
+        eng.fail("fmod:second-operand-not-converted", stop=False)  # known finding K10
+    r = np.percentile(z, 50)
+    P(r.magnitude == 2.0 and str(r.units) == "meter", "percentile")
+    r = np.round(Qy(np.array([1.26, 2.0]), "m"), 1)
+    P(list(r.magnitude) == [1.3, 2.0] and str(r.units) == "meter", "round")
+    P(list(np.unwrap(Qy(np.array([0.0, 360.0]), "degree")).to("degree").magnitude) == [0.0, 0.0], "unwrap:degrees")
+    r = np.sin(Qy(np.array([90.0]), "degree"))
+    P(abs(getattr(r, "magnitude", r)[0] - 1.0) < 1e-15 and (not hasattr(r, "_units") or not r.to_root_units()._units), "sin:degree-converted-to-radian")
+    try:
+        np.sin(z)
+    except DimensionalityError:
+        P(True, "sin:dimensional-refused")
+    else:
+        eng.fail("sin:dimensional-accepted")
+
+
 def h_incompatible(eng, name, ua, ub):
     ureg = regs.default(eng)
     arity, f, rule = FUNCS[name]
-    A, B = ureg.Quantity(_arr(eng, "a"), ua), ureg.Quantity(_arr(eng, "b"), ub)
+    if name in K10 and _k10_present(eng, ureg, name):
+        return
+    b = _arr(eng, "b")
+    if name in DIVISORS_NONZERO:
+        for x in b:
+            eng.assume(Not(Eq(x, 0)))
+    A, B = ureg.Quantity(_arr(eng, "a"), ua), ureg.Quantity(b, ub)
     try:
         f(A, B)
     except DimensionalityError:
@@ -243,7 +438,7 @@ def h_inplace(eng, ua, ub):
         eng.prove(Eq(D.magnitude[i], b[i] * fb / fa), f"copyto-converts[{i}]")
 
 
-MIN_DISCHARGED = {"H16.a": 1500, "H16.c": 20}
+MIN_DISCHARGED = {"H16.a": 1500, "H16.c": 20, "H16.e": 150}
 
 
 def cases(tier, seed):
@@ -263,6 +458,10 @@ def cases(tier, seed):
         out.append(Case("H16.c", f"incompatible:{name}", M, "h_incompatible", {"name": name, "ua": "meter", "ub": "second"}, opts=opts, validate=1))
     for name in ("add", "multiply", "dot", "prod", "square", "sum-initial"):
         out.append(Case("H16.c", f"offset:{name}", M, "h_offset_refused", {"name": name}, opts=opts, validate=0))
+    for name in DIMLESS_FUNCS:
+        for ua, ua2 in (("percent", "dimensionless"),) + ((("ppm", "percent"), ("dimensionless", "percent")) if big else ()):
+            out.append(Case("H16.e", f"{name}:{ua}->{ua2}", M, "h_dimless", {"name": name, "ua": ua, "ua2": ua2}, opts=opts, validate=1, weight=4.0))
+    out.append(Case("H16.f", "float-routing", M, "h_float_routing", {}, kind="conc"))
     out.append(Case("H16.d", "inplace:meter,inch", M, "h_inplace", {"ua": "meter", "ub": "inch"}, opts=opts, validate=1))
     out.append(Case("H16.d", "inplace:hour,second", M, "h_inplace", {"ua": "hour", "ub": "second"}, opts=opts, validate=1))
     return out
